@@ -44,6 +44,13 @@ MAXS = (1, 2, 33, 1024, 65535)
 LIMS = (1, 2, 3, 16, 128)
 
 
+# CPU seconds (user mode, this process) one instrumented run may use; the
+# slowest terminating run observed on the unchanged tree is in the evidence
+# (max_cpu_ms_one_run) and stays two orders of magnitude below
+CPU_BUDGET = 30.0
+NONTERMINATING = [0]
+
+
 def shards(tier, seed):
     return [{'shard': i, 'of': NSH} for i in range(NSH)]
 
@@ -88,6 +95,7 @@ def gen_script(rng, mi, ms, lim):
         n = min(ms, rng.choice((1, 1, 2, 3, 4)))
         a, b = rbytes(rng, n), rbytes(rng, max(1, n - rng.randrange(0, 2)))
         big = bytes([0x7f]) + b'\xff' * (n - 1)
+        longer = rbytes(rng, n + rng.choice((1, 1, 2, 5)))
         tail = rng.choice((
             O('SHA256'), O('SHA256') + O('SHA256'),
             O('SHAKE256') + bytes([rng.choice((1, 2, ms & 0xff, 33, 64))]),
@@ -97,6 +105,9 @@ def gen_script(rng, mi, ms, lim):
             isa.push(big) + O('SUBTRACT_INTS') + b'\x02',
             isa.push(b) + O('XOR'), isa.push(b) + O('OR'),
             isa.push(b) + O('AND'), O('NOT'),
+            # ... the LONGER operand on top (the shorter one is padded)
+            isa.push(longer) + O('XOR'), isa.push(longer) + O('OR'),
+            isa.push(longer) + O('AND'),
             O('GET_VALUE') + b'\x09timestamp',
             O('GET_MESSAGE') + b'\x00', O('DEPTH'),
             O('RANDOM') + bytes([rng.choice((1, ms & 0xff, 33))]),
@@ -291,7 +302,8 @@ def run_instrumented(script, mi, ms, lim, via_run_tape, entry=None):
     sys.setrecursionlimit(30000)
     exc = None
     try:
-        with instr.injected(mon, trace_dispatch=True, frames=True):
+        with instr.cpu_budget(CPU_BUDGET) as watch, \
+                instr.injected(mon, trace_dispatch=True, frames=True):
             try:
                 if via_run_tape:
                     MonDeque, MonStack, MonTape = instr.classes()
@@ -324,6 +336,8 @@ def run_instrumented(script, mi, ms, lim, via_run_tape, entry=None):
                 exc = e
     finally:
         sys.setrecursionlimit(old)
+    mon.cpu_used = watch.used
+    mon.cpu_fired = watch.fired
     return mon, exc
 
 
@@ -365,8 +379,13 @@ def judge(ctx, case):
     script, mi, ms, lim = case['script'], case['mi'], case['ms'], case['lim']
     ctx.evaluated()
     ctx.tab('template', case['tmpl'].split(':')[0])
+    if NONTERMINATING[0] >= 3:
+        ctx.count('skipped.after_three_nonterminating_runs')
+        return
     mon, iexc = run_instrumented(script, mi, ms, lim, case.get('rt', False),
                                  case.get('entry'))
+    if mon.cpu_fired:
+        NONTERMINATING[0] += 1
     ctx.tab('entry', 'run_tape' if case.get('rt') else
             (case.get('entry') or 'run_script'))
     ctx.count('monitor.dispatches', mon.dispatches)
@@ -376,6 +395,17 @@ def judge(ctx, case):
     ctx.max('max_item_size_seen', mon.max_item_size)
     ctx.max('max_chain_seen', mon.max_chain)
     ctx.max('max_loop_iters_seen', mon.max_loop_iters)
+    ctx.max('max_cpu_ms_one_run', int(mon.cpu_used * 1000))
+    if mon.cpu_fired:
+        # the dispatch budget bounds what a run may do in INSTRUCTIONS; this
+        # bounds what it may do inside one: no terminating run of this
+        # workload uses a hundredth of it
+        ctx.violation('run-does-not-end', f'the run used {CPU_BUDGET} s of '
+                      'CPU time without ending (the dispatch hook saw '
+                      f'{mon.dispatches} instructions start): a loop inside '
+                      'an instruction that no limit stops', case,
+                      f'< {CPU_BUDGET} s CPU', f'{mon.cpu_used:.1f} s')
+        return
     for key, desc in mon.problems:
         ctx.violation(key, 'limit invariant broken at the hook: ' + desc,
                       case)
